@@ -1320,3 +1320,46 @@ def run(ctx):
     else:
         ctx.violation("R1.5", "PackURI.from_rel_ref", "a relative reference is not resolved with posixpath.join and normalisation (%s)" % fsrc,
                       file=frr.file, line=frr.line)
+
+    # -- R1.6 --------------------------------------------------------------------------------------------
+    ctx.rule("R1.6", "the zip reader's member table holds every member of the archive (none is filtered out by size or name)")
+    zr = ser.classes.get("_ZipPkgReader")
+    bl = prog.lookup(zr, "_blobs") if zr is not None else None
+    if bl is None:
+        raise AnalysisError("anchor vanished: _ZipPkgReader._blobs")
+    from sa.inline import expand as _exp16
+
+    blx = _exp16(prog, bl, local_only=True)
+    comps = [n for n in ast.walk(blx) if isinstance(n, ast.DictComp)]
+    loops = [n for n in ast.walk(blx) if isinstance(n, ast.For) and isinstance(n.iter, ast.Call) and (dotted(n.iter.func) or "").split(".")[-1] in ("namelist", "infolist")]
+    filters = []
+    src_ok = False
+    for dc in comps:
+        g = dc.generators[0] if len(dc.generators) == 1 else None
+        if g is not None and isinstance(g.iter, ast.Call) and (dotted(g.iter.func) or "").split(".")[-1] in ("namelist", "infolist"):
+            src_ok = True
+            filters += [(t, dc.lineno) for t in g.ifs]
+    for lp in loops:
+        src_ok = True
+        for st in ast.walk(lp):
+            if isinstance(st, ast.If) and any(isinstance(x, ast.Continue) for x in st.body):
+                filters.append((st.test, st.lineno))
+    if not src_ok:
+        ctx.error("_ZipPkgReader._blobs", "the table of members (a mapping built over namelist() / infolist()) is not recognised")
+    else:
+        bad = None
+        for t, ln in filters:
+            txt = ast.unparse(t)
+            if "is_dir()" in txt or "endswith('/')" in txt or 'endswith("/")' in txt:
+                continue     # directory entries are not package items
+            if any(a_ in txt for a_ in ("file_size", "compress_size", "len(")):
+                bad = ("violation", "members are dropped by their size (`%s`): a part with an empty payload looks absent, so the part and every "
+                       "relationship to it are silently lost on open and save" % txt[:60], ln)
+                break
+            bad = ("error", "members are filtered by `%s`, which is not decided" % txt[:60], ln)
+        if bad is None:
+            ctx.ok("R1.6", "_ZipPkgReader._blobs", sample={"members": "every name of the archive", "filters": [ast.unparse(t)[:40] for t, _ in filters]})
+        elif bad[0] == "error":
+            ctx.error("_ZipPkgReader._blobs", bad[1])
+        else:
+            ctx.violation("R1.6", "_ZipPkgReader._blobs", bad[1], file=bl.file, line=bad[2])
